@@ -8,6 +8,17 @@ TB = ("Trusted: Lean 4.33 kernel; axioms propext, Classical.choice, Quot.sound (
 
 # id -> (category, technique, text, note, design_ref)
 CHECKS = {
+    "C05": ("proof", "Lean 4 induction over argument lists (FFI trampoline and generated-call placement state machines = psABI placement) + assembly probe correspondence and gcc-compiled callees",
+            "PROVED for every argument list of any length and mix (i8..u64,p,f,d,ld,blk0-4,rblk, variadic tail): each argument's register/stack location, the stack size/alignment and the xmm count of _MIR_get_ff_call and "
+            "machinize_call equal the psABI placement (full statements for the repaired code; the pre-fix variants are refuted by kernel-checked counterexamples), %al, result placement, narrowing of i8..u32. "
+            "Correspondence: an assembly probe callee snapshots all argument registers and 96 stack words; sentinels observe the placement under the interpreter FFI and gen -O0..-O3; second oracle: gcc-compiled callees.",
+            TB + " The check detects from pinned witness prototypes which variant (pre/post fix) the tree implements; emitted machine code is observed, not modelled.", "4 C05"),
+    "C16": ("proof", "Lean 4 proofs about a heap model of _MIR_duplicate_func_insns/_MIR_restore_func_insns and the MIR_gen state machine + structural and behavioural correspondence",
+            "PROVED for every well-formed function and every sequence of legal generator edits: the working copy is closed (all label operands and lrefs point into it), prints like the original, and restore returns "
+            "exactly the original insn list, lrefs, vars and register tables; repeated MIR_gen returns the same address and publishes code once. Correspondence: the real duplicate/restore with random edit scripts on "
+            "mir-tests, c2m -S corpus and generated functions (struct dumps diffed with the model); behavioural plans (gen in any order/repetition at -O0..3, eager/lazy, interleaved with MIR_output_item, MIR_interp, "
+            "later modules that call or inline generated functions).",
+            TB + " That the optimizer's real edits are legal in the model's sense is only checked behaviourally.", "4 C16"),
     "C08": ("proof", "Lean 4 proofs about literal models of c2mir's layout and eightbyte classification vs a psABI specification + c2m/gcc/model three-way correspondence on generated declarations and by-value passing",
             "PROVED for every well-formed type: layout well-formedness (alignment divides size, members aligned, inside the object, ordered and disjoint), termination of the backwards search loop, "
             "c2mir layout = psABI layout for all types without bit-fields and for bit-fields under an explicit decidable side condition; classification merge laws; classification and register assignment = psABI "
